@@ -156,6 +156,23 @@ class JumpToStageHandler(StabilizeHandler[JumpToStage]):
                 )
                 return
 
+            if execution.is_canceled:
+                # The cancel already pushed CancelStage for every unfinished
+                # stage; re-arming stages now would leave them NOT_STARTED.
+                logger.info(
+                    "Ignoring jump to %s - execution %s is canceled",
+                    message.target_stage_ref_id,
+                    message.execution_id,
+                )
+                if message.message_id:
+                    with self.repository.transaction(self.queue) as txn:
+                        txn.mark_message_processed(
+                            message_id=message.message_id,
+                            handler_type="JumpToStage",
+                            execution_id=message.execution_id,
+                        )
+                return
+
             # Find target stage by ref_id
             target_stage = execution.stage_by_ref_id(message.target_stage_ref_id)
 
